@@ -2,7 +2,7 @@
 //! is added.
 
 use super::common::*;
-use super::values::*;
+
 use crate::case::*;
 use crate::compile::{CompileStatus, ProbeResult};
 use crate::engine::*;
